@@ -4,7 +4,7 @@
 #   patch file: *.diff / *.patch applied with `git apply`;  otherwise: a bash script run with cwd = copy
 set -u
 CH="$(realpath "$1")"; ID="$2"; TIER="${3:-quick}"
-D=$(mktemp -d /var/tmp/verif-mut.XXXXXX)
+D=/var/tmp/verif-mut.slot; rm -rf "$D"; mkdir -p "$D"   # fixed slot: the Go build cache is keyed by path
 trap 'rm -rf "$D"' EXIT
 rsync -a --exclude .git /repo/ "$D/"
 case "$CH" in
